@@ -129,6 +129,7 @@ impl OperationControl for Repeat {
                     states.push(matcher.snapshot());
                 }
             }
+            let zero_entry = iterators.len();
             for _i in 0..bound {
                 let mut it = self.operation.matches_iter(matcher, p);
                 if let Some(next) = it.next() {
@@ -156,6 +157,7 @@ impl OperationControl for Repeat {
                     states,
                     capturing,
                     bound,
+                    zero_entry,
                     self.min,
                 ),
             )))
@@ -206,6 +208,8 @@ struct GreedyRepeatIterator<'a> {
     states: Vec<Snapshot>,
     capturing: bool,
     bound: usize,
+    // 1 if the bottom entry stands for "zero iterations" rather than for an iteration
+    zero_entry: usize,
     // where the repetition started
     start: usize,
 }
@@ -229,6 +233,7 @@ impl<'a> GreedyRepeatIterator<'a> {
         states: Vec<Snapshot>,
         capturing: bool,
         bound: usize,
+        zero_entry: usize,
         min: usize,
     ) -> Self {
         Self {
@@ -241,6 +246,7 @@ impl<'a> GreedyRepeatIterator<'a> {
             states,
             capturing,
             bound,
+            zero_entry,
             start,
         }
     }
@@ -264,7 +270,7 @@ impl Iterator for GreedyRepeatIterator<'_> {
                         self.states.pop();
                         self.states.push(self.matcher.snapshot());
                     }
-                    while self.iterators.len() < self.bound {
+                    while self.iterators.len() < self.bound + self.zero_entry {
                         let mut it = self.operation.matches_iter(self.matcher, p);
                         if let Some(next) = it.next() {
                             p = next;
